@@ -18,7 +18,10 @@ import traceback
 
 HERE = os.path.dirname(os.path.dirname(os.path.abspath(__file__)))
 REPO = os.environ.get('OVC_REPO_ROOT', '/repo')
-OUT = os.environ.get('OVC_OUT_DIR', HERE)
+# a run restricted to some families (development aid OVC_ONLY) is not a record of
+# the check: it never writes into the committed evidence directory
+OUT = os.environ.get('OVC_OUT_DIR') or (
+    os.path.join(HERE, '.partial_out') if os.environ.get('OVC_ONLY') else HERE)
 
 
 def _quiet():
